@@ -315,7 +315,7 @@ impl Property for MultiProp {
         match self.id {
             "C08" => "1-6 cumulative tasks (interval/sparse/negative starts, about half of them with at most two start times, views, durations 0-5, usages 0-3, capacity 0-4) + 0-2 side constraints, iterated under several of the 144 CumulativeOptions combinations (quick: 8 per case, rotating so that every combination is used; thorough: all 144) and compared with the definitional solution set. Non-trivial: >=2 tasks with positive duration and usage, reference set neither empty nor the full product, >=1 conflict; distinct by model hash.".into(),
             "C09" => "1-3 constraints of every kind, 30% each posted half-reified / reified / negated with free or pre-fixed literals, iterated under 2 configurations and compared with the reference set defined by implication / equivalence / complement semantics. Non-trivial: a reified constraint whose literal takes both values in the reference set and which is neither valid nor unsatisfiable over the domains; distinct by model hash.".into(),
-            _ => "one generated model x K configurations (always: default, NoLearning, restart after every conflict, delete all learned nogoods with both sortings, no minimisation; plus generated ones): each configuration's iterated solution set and optimum must equal the exhaustive reference. Non-trivial: >=2 configurations had >=3 conflicts; distinct by model hash.".into(),
+            _ => "one generated model x K configurations (always: default, NoLearning, restart after every conflict, delete all learned nogoods with both sortings, no minimisation, restart after every conflict under a generated composite brancher; plus generated ones): each configuration's iterated solution set and optimum must equal the exhaustive reference. Non-trivial: >=2 configurations had >=3 conflicts; distinct by model hash.".into(),
         }
     }
     fn assumptions(&self) -> Vec<String> {
@@ -325,7 +325,7 @@ impl Property for MultiProp {
         let p = self.params(tier);
         let pp = p.clone();
         let id = self.id;
-        let n_gen = if tier == Tier::Quick { 2 } else { 6 };
+        let n_gen = if tier == Tier::Quick { 3 } else { 6 };
         (
             raw_model_strategy(&p),
             proptest::collection::vec(raw_config_strategy(), n_gen..=n_gen),
@@ -350,6 +350,17 @@ impl Property for MultiProp {
                     }
                     _ => {
                         let mut all = special_configs();
+                        // brancher stress: restart after every conflict under a composite brancher (all four
+                        // alternating strategies, dynamically assembled, custom) over a generated selector
+                        let mut stress = all[2].clone();
+                        let sel = Sel { vs: (rot >> 4) as u8 % NUM_VS, vl: (rot >> 8) as u8 % NUM_VL, tie_random: rot & 1 == 1, dynamic: rot & 2 == 2 };
+                        stress.brancher = match (rot >> 2) % 4 {
+                            0 | 1 => BrSpec::Alternating { strategy: (rot >> 12) as u8, other: sel },
+                            2 => BrSpec::Dynamic { parts: vec![sel.clone(), Sel { vs: 2, vl: 4, tie_random: false, dynamic: false }], interleave: rot & 1 == 0, build: (rot >> 12) as u8 % 4 },
+                            _ => BrSpec::AutoCustom(sel),
+                        };
+                        stress.seed = (rot >> 13) as u64;
+                        all.push(stress);
                         all.extend(cfgs);
                         cfgs = all;
                         objective = Some((crate::props::solve::build_objective(&model, &obj), maximise));
@@ -365,7 +376,7 @@ impl Property for MultiProp {
             ("C08", Tier::Thorough) => 40_000,
             ("C09", Tier::Quick) => 80_000,
             ("C09", Tier::Thorough) => 1_500_000,
-            (_, Tier::Quick) => 30_000,
+            (_, Tier::Quick) => 60_000,
             (_, Tier::Thorough) => 400_000,
         }
     }
